@@ -35,7 +35,7 @@ func (C15) Explore(x *kernel.Explorer, seed uint64) {
 	r := kernel.NewRNG(seed, 0xc15)
 	for i := 0; i < 4 && !x.Expired(); i++ {
 		plan := &kernel.Plan{Prop: "C15", Seed: kernel.Mix(seed, uint64(i)), Swarm: map[string]int64{
-			"chunk": int64(r.Intn(4)), "rot_pair": int64(r.Intn(4)), "rot_sym": int64(r.Intn(4)), "binary": int64(r.Intn(2)), "mysql": int64(r.Intn(3) / 2), "depeof": int64(r.Intn(2)), "wyield": int64(r.Intn(2)), "mask": int64(r.Intn(3) / 2)}}
+			"chunk": int64(r.Intn(4)), "rot_pair": int64(r.Intn(4)), "rot_sym": int64(r.Intn(4)), "binary": int64(r.Intn(2)), "mysql": int64(r.Intn(3) / 2), "depeof": int64(r.Intn(2)), "rawmy": int64(r.Intn(2)), "reexec": int64(r.Intn(2)), "wyield": int64(r.Intn(2)), "mask": int64(r.Intn(3) / 2)}}
 		n := 1 + r.Intn(6)
 		for j := 0; j < n; j++ {
 			// A: kind (0 asym poison,1 sym poison,2 random,3 client envelope,4 truncated poison,5 bit-flipped poison),
